@@ -39,6 +39,7 @@ type Case struct {
 }
 
 func eval(c Case) *pbt.Fail {
+	c.Req.Entry = ownEntry(c.Req.Entry)
 	n := len(c.Req.Input)
 	wd := worker.Watchdog(n)
 	r := cl.Do(c.Req, wd)
@@ -390,6 +391,15 @@ func genCase(rt *rapid.T) Case {
 	}
 	maybeFault(rt, &c)
 	return c
+}
+
+// ownEntry: BMFFRaw's callbacks are the harness's own consumers, which ask their reader for 64 KiB at a time (C08 uses
+// them): what they request is not the library's doing, so C02 measures the same walk through BMFF instead.
+func ownEntry(e string) string {
+	if e == "BMFFRaw" {
+		return "BMFF"
+	}
+	return e
 }
 
 // maybeFault: one case in five reads its input through a reader that delivers a prefix and then fails on every call with an
